@@ -235,20 +235,16 @@ func NewService(nodeID, dir string, clstr Cluster, cfg *Config) (*Service, error
 	}
 	srv.fifo = fifo
 
-	// Whatever is the first key in the FIFO we assume has not been sent. This ensures we meet the
-	// at least-once guarantee. So set the highwater mark to one before.
+	// We assume that anything sitting in the FIFO has not been sent to the webhook, which meets
+	// the at-least-once guarantee. The high watermark therefore starts at zero, meaning "nothing
+	// known yet", and is only ever set from evidence: a transmission by this node that succeeded,
+	// or an HWM update from other nodes in the cluster (which may also prune the FIFO).
 	//
-	// In other words we assume that anything sitting in the queue has not been sent to the webhook.
-	// If that is not the case then an HWM update from other nodes in the cluster may update it
-	// (and prune the FIFO).
-	higHWM, err := fifo.FirstKey()
-	if err != nil {
-		return nil, fmt.Errorf("failed to read first key from FIFO: %w", err)
-	}
-	if higHWM > 0 {
-		higHWM -= 1
-	}
-	srv.highWatermark.Store(higHWM)
+	// It must not be derived from the first key in the FIFO. An item is keyed by the highest
+	// index of its batch, so the item with key K can hold changes with indexes below K, and
+	// "K-1" would claim that those have been sent. The leader broadcasts its high watermark,
+	// and other nodes, whose batch boundaries differ, would delete changes nobody has sent.
+	srv.highWatermark.Store(0)
 
 	return srv, nil
 }
